@@ -420,8 +420,24 @@ func (w *Worker) fpConvCmpConv(op token.Token, x, y Value) (Value, bool) {
 	if op == token.NEQ {
 		op, neg = token.EQL, true
 	}
+	if op != token.LSS && op != token.LEQ && op != token.EQL {
+		return nil, false
+	}
 	p := w.path
+	a1, a2 := a.hash()
+	b1, b2 := b.hash()
+	ckey := fmt.Sprintf("cmpconv/%v/%x.%x/%x.%x", op, a1, a2, b1, b2)
+	if p.opaque == nil {
+		p.opaque = map[string]*Term{}
+	}
+	if r0, ok := p.opaque[ckey]; ok { // the comparison is a function of its operands
+		if neg {
+			return lowerBool(tNot(r0)), true
+		}
+		return lowerBool(r0), true
+	}
 	r := p.freshBool()
+	p.opaque[ckey] = r
 	k := intConst(2048)
 	implies := func(c, d *Term) *Term { return tOr(tNot(c), d) }
 	switch op {
@@ -793,8 +809,17 @@ func (w *Worker) symFloatToInt(f *Term, k intKind) Value {
 			return wrapConc(math.MinInt64, k)
 		}
 		w.stub("int64(float64(i)) for |i| > 2^53: any value within 1024 of i (over-approximation of the rounding)")
-		r := w.path.freshInt(64, true)
-		w.path.assertTerm(tAnd(tLe(tSub(r, i), intConst(1024)), tLe(tSub(i, r), intConst(1024))))
+		h1, h2 := i.hash()
+		rkey := fmt.Sprintf("f2i/%x.%x", h1, h2)
+		if w.path.opaque == nil {
+			w.path.opaque = map[string]*Term{}
+		}
+		r, seen := w.path.opaque[rkey]
+		if !seen {
+			r = w.path.freshInt(64, true)
+			w.path.opaque[rkey] = r
+			w.path.assertTerm(tAnd(tLe(tSub(r, i), intConst(1024)), tLe(tSub(i, r), intConst(1024))))
+		}
 		return lowerInt(tWrap(r, k.bits, k.signed), k)
 	}
 	rtz := &Term{op: "const", sort: SFP, raw: "RTZ", size: 1}
